@@ -44,9 +44,35 @@ package query
 //@   loop 0 invariant 0 <= rangeindex + 1 && rangeindex + 1 <= len(claims)
 //@   loop 0 invariant forall(k, 0, rangeindex + 1, gerLeafIndex(claims[k].GlobalExitRoot) <= finalizedL1InfoTreeRoot.Index)
 
-//@ func (l *L1InfoTreeDataQuerier) getLatestProcessedFinalizedBlock (l, ctx)
-//@   trusted
+// the L1 block up to which claims may be proven (C09): never beyond the block the L1 node reports as finalized, never
+// beyond what the L1 info syncer has processed (and never "block 0"), and only if the syncer's copy of that block has the
+// hash the node reports for it (an empty stored hash, from before hashes were stored, is accepted as the code says).
+// The node and the syncer are boundaries (A8): l1HdrAt(n) is the header the node returns for number n (negative: a tag),
+// procUntilNum / procUntilHash(n) the syncer's last processed block at or below n and its stored hash.
+//@ spec fn l1NumAt(n int) int
+//@ spec fn l1HashAt(n int) Hash
+//@ spec fn hdrHashOf(h *types.Header) Hash
+//@ spec fn procUntilNum(n int) int
+//@ spec fn procUntilHash(n int) Hash
+//@ spec fn finNum() int = l1NumAt(bigval(finalizedBlockBigInt))
+//@ interface github.com/agglayer/aggkit/types.BaseEthereumClienter.HeaderByNumber@query.(*L1InfoTreeDataQuerier).getLatestProcessedFinalizedBlock (self, ctx, number)
 //@   modifies nothing
+//@   ensures result1 != nil ==> result0 == nil
+//@   ensures result1 == nil ==> result0 != nil && result0.Number != nil && bigval(result0.Number) == l1NumAt(bigval(number)) && hdrHashOf(result0) == l1HashAt(bigval(number)) && 0 <= l1NumAt(bigval(number)) && l1NumAt(bigval(number)) < 9223372036854775808 && (bigval(number) >= 0 ==> l1NumAt(bigval(number)) == bigval(number))
+//@ extern (*github.com/ethereum/go-ethereum/core/types.Header).Hash@query.(*L1InfoTreeDataQuerier).getLatestProcessedFinalizedBlock (h)
+//@   modifies nothing
+//@   ensures result == hdrHashOf(h)
+//@ interface github.com/agglayer/aggkit/aggsender/types.L1InfoTreeSyncer.GetProcessedBlockUntil (self, ctx, blockNumber)
+//@   modifies nothing
+//@   ensures result2 == nil ==> result0 == procUntilNum(blockNumber) && result1 == procUntilHash(blockNumber) && result0 <= blockNumber
+//@ func (l *L1InfoTreeDataQuerier) getLatestProcessedFinalizedBlock (l, ctx)
+//@   props C09
+//@   requires l != nil && l.l1Client != nil && l.l1InfoTreeSyncer != nil
+//@   modifies nothing
+//@   assert call:HeaderByNumber:0 arg1 == finalizedBlockBigInt
+//@   ensures[never-beyond-the-finalized-block-nor-the-processed-one] result1 == nil ==> result0 <= finNum() && result0 <= procUntilNum(finNum()) && procUntilNum(finNum()) != 0
+//@   ensures[the-lower-of-the-two] result1 == nil ==> result0 == procUntilNum(finNum())
+//@   ensures[the-syncers-copy-has-the-nodes-hash] result1 == nil ==> (procUntilHash(finNum()) == ZeroHash || procUntilHash(finNum()) == l1HashAt(ite(finNum() > procUntilNum(finNum()), procUntilNum(finNum()), bigval(finalizedBlockBigInt))))
 
 //@ func (l *L1InfoTreeDataQuerier) GetLatestFinalizedL1InfoRoot (l, ctx)
 //@   props C09
